@@ -139,6 +139,12 @@ def check(spec):
             out.append(_ob(mod.path, qual, kind, n, line, "operand-owned object written: %s" % what, False))
         n += 1
         out.append(_ob(mod.path, qual, kind, n, fdef.lineno, "%s never writes into an object owned by %s (directly or through an un-copied alias)" % (qual, "/".join(sorted(owners))), not bad))
+    elif kind == "calls":
+        # the function calls each of the named functions at least once on its straight-line (non-nested-function) body
+        names = {_callee_name(c) for c in ast.walk(fdef) if isinstance(c, ast.Call)}
+        for want in spec["callees"]:
+            n += 1
+            out.append(_ob(mod.path, qual, kind, n, fdef.lineno, "%s calls %s (%s)" % (qual, want, spec.get("why", "")), want in names))
     elif kind == "same-branch":
         # the branch guarded by the given test is textually identical in two methods (hand-duplicated code that must stay in step)
         other = _fn(mod, spec["other"])
